@@ -134,15 +134,16 @@ def classOfName (t : Tables) (name : Option Str) : Str :=
 def nameOfClass (t : Tables) (cls : Str) : Str :=
   (dictGet t.clsname2name cls).getD t.internalError
 
-/-- `make_secop_error(name, text)`: the class named in a text of the form `Cls: …` is used only when it
-carries the reported error name; otherwise the class registered for the name, or `InternalError` -/
+/-- `make_secop_error(name, text)`: the class registered for the reported name (`InternalError` for an unknown one);
+a class named in a text of the form `Cls: …` replaces it only when it is another class carrying the same error name —
+these are the classes whose name `SECoPError.format` writes in front of the text -/
 def makeSecopError (t : Tables) (name : Option Str) (text : Str) : ErrObj :=
   let errcls := classOfName t name
   let plain : ErrObj := ⟨errcls, nameOfClass t errcls, text⟩
   match matchFrappyError text with
   | some (clsname, errtext) =>
     match dictGet t.clsname2name clsname with
-    | some n => if n = nameOfClass t errcls then ⟨clsname, n, errtext⟩ else plain
+    | some n => if clsname ≠ errcls ∧ n = nameOfClass t errcls then ⟨clsname, n, errtext⟩ else plain
     | none => plain
   | none => plain
 
